@@ -19,29 +19,21 @@ import (
 func (e *Exec) loopLookup(lp *Loop) func(name string) (CV, bool) {
 	fn := e.fn
 	return func(name string) (CV, bool) {
-		// parameters
-		for _, p := range fn.Params {
-			if p.Name() == name {
-				if v, ok := e.regs[p]; ok {
-					return CV{V: v, T: p.Type()}, true
-				}
-			}
-		}
-		for _, fv := range fn.FreeVars {
-			if fv.Name() == name {
-				if v, ok := e.regs[fv]; ok {
-					p, isP := v.(*Ptr)
-					if isP {
-						return CV{V: e.quietLoad(p), T: deref(fv.Type())}, true
-					}
-				}
-			}
-		}
 		// phis of the header named after the variable
 		for _, in := range lp.Header.Instrs {
 			if phi, ok := in.(*ssa.Phi); ok && phi.Comment == name {
 				if v, ok := e.regs[phi]; ok {
 					return CV{V: v, T: phi.Type()}, true
+				}
+			}
+		}
+		// a value of that name defined in the header block itself (e.g. the range index i = phi + 1)
+		for _, in := range lp.Header.Instrs {
+			if d, ok := in.(*ssa.DebugRef); ok && !d.IsAddr {
+				if id, ok := d.Expr.(*ast.Ident); ok && id.Name == name {
+					if v, ok := e.regs[d.X]; ok {
+						return CV{V: v, T: d.X.Type()}, true
+					}
 				}
 			}
 		}
@@ -94,6 +86,24 @@ func (e *Exec) loopLookup(lp *Loop) func(name string) (CV, bool) {
 		}
 		if best != nil {
 			return CV{V: e.val(best), T: best.Type()}, true
+		}
+		// parameters (not reassigned inside the loop)
+		for _, p := range fn.Params {
+			if p.Name() == name {
+				if v, ok := e.regs[p]; ok {
+					return CV{V: v, T: p.Type()}, true
+				}
+			}
+		}
+		for _, fv := range fn.FreeVars {
+			if fv.Name() == name {
+				if v, ok := e.regs[fv]; ok {
+					p, isP := v.(*Ptr)
+					if isP {
+						return CV{V: e.quietLoad(p), T: deref(fv.Type())}, true
+					}
+				}
+			}
 		}
 		return CV{}, false
 	}
@@ -841,27 +851,31 @@ func (e *Exec) finish() {
 	}
 }
 
-// checkFrame: every pre-existing object not named by a modifies clause is unchanged.
-func (e *Exec) checkFrame(env *CEnv) {
-	// allowed locations, evaluated in the pre-state
-	pre := e.paramEnv(e.st0, nil)
-	type allow struct {
-		heap  string
-		ref   *Term
-		path  []PathEl
-		elems *Term // slice term for elems()
-		idx   *Term
-		whole bool
-		mapk  bool
+// frame machinery: every pre-existing object not named by a modifies clause is unchanged.
+type frameAllow struct {
+	heap  string
+	ref   *Term
+	path  []PathEl
+	elems *Term // slice term for elems()
+	idx   *Term
+	whole bool
+}
+
+// frameAllows evaluates the modifies clauses in the pre-state (cached per function execution).
+func (e *Exec) frameAllows() []frameAllow {
+	if e.allowsDone {
+		return e.allows
 	}
-	var allows []allow
+	e.allowsDone = true
+	pre := e.paramEnv(e.st0, nil)
+	var allows []frameAllow
 	for _, m := range e.con.Modifies {
 		func() {
 			defer func() {
 				if r := recover(); r != nil {
 					switch r.(type) {
 					case cevalErr, unsupportedErr:
-						e.vc.Oblige("frame", "modifies", fmt.Sprintf("cannot evaluate modifies clause %s: %v", m.Text, r), m.Line, e.g, False, nil).Status = "unknown"
+						e.vc.Oblige("frame", "modifies", fmt.Sprintf("cannot evaluate modifies clause %s: %v", m.Text, r), m.Line, True, False, nil).Status = "unknown"
 					default:
 						panic(r)
 					}
@@ -871,47 +885,115 @@ func (e *Exec) checkFrame(env *CEnv) {
 			if x.Kind == "call" && x.X.Kind == "ident" && x.X.Name == "elems" {
 				s := pre.eval(x.Args[0])
 				sl := types.Unalias(s.T).Underlying().(*types.Slice)
-				allows = append(allows, allow{heap: elemHeapName(sl.Elem()), elems: pre.asTerm(s)})
+				allows = append(allows, frameAllow{heap: elemHeapName(sl.Elem()), elems: pre.asTerm(s)})
 				return
 			}
 			if x.Kind == "call" && x.X.Kind == "ident" && x.X.Name == "entries" {
 				mv := pre.eval(x.Args[0])
 				mt := types.Unalias(mv.T).Underlying().(*types.Map)
 				mp, mvn := mapHeapNames(mt)
-				allows = append(allows, allow{heap: mp, ref: pre.asTerm(mv), whole: true}, allow{heap: mvn, ref: pre.asTerm(mv), whole: true})
+				allows = append(allows, frameAllow{heap: mp, ref: pre.asTerm(mv), whole: true}, frameAllow{heap: mvn, ref: pre.asTerm(mv), whole: true})
 				return
 			}
 			var p *Ptr
-			saveSt := e.st
+			saveSt, saveSilent := e.st, e.silent
 			e.st = e.st0.clone()
-			p = e.evalLV(pre, x)
-			e.st = saveSt
+			e.silent = true
+			func() {
+				defer func() { e.st, e.silent = saveSt, saveSilent }()
+				p = e.evalLV(pre, x)
+			}()
 			switch p.Kind {
 			case PHeap:
-				allows = append(allows, allow{heap: heapName(p.Base), ref: p.Ref, path: p.Path, whole: len(p.Path) == 0})
+				allows = append(allows, frameAllow{heap: heapName(p.Base), ref: p.Ref, path: p.Path, whole: len(p.Path) == 0})
 			case PArr:
-				allows = append(allows, allow{heap: elemHeapName(p.Base), ref: p.Ref, whole: true})
+				allows = append(allows, frameAllow{heap: elemHeapName(p.Base), ref: p.Ref, whole: true})
 			case PElem:
-				allows = append(allows, allow{heap: elemHeapName(p.Base), ref: p.Ref, idx: p.Idx})
+				allows = append(allows, frameAllow{heap: elemHeapName(p.Base), ref: p.Ref, idx: p.Idx})
 			case PGlobal:
-				allows = append(allows, allow{heap: "G." + mangle(p.Global.Pkg.Pkg.Path()+"."+p.Global.Name()), whole: true})
+				allows = append(allows, frameAllow{heap: "G." + mangle(p.Global.Pkg.Pkg.Path()+"."+p.Global.Name()), whole: true})
 			}
 		}()
 	}
+	e.allows = allows
+	return allows
+}
+
+// frameGoal: for heap hn with current value final: object r (and element k for backing arrays) is either
+// not pre-existing, named by modifies, or equal to its initial value.
+func (e *Exec) frameGoal(hn string, final, r, k *Term) *Term {
+	allows := e.frameAllows()
+	init := e.heap0(hn, e.root.heapSorts[hn])
+	ac0 := e.st0.ac
+	exists := And(IntLt(IntLit(0), r), IntLt(r, ac0))
+	fv, iv := Select(final, r), Select(init, r)
+	if strings.HasPrefix(hn, "A.") {
+		same := Eq(Select(fv, k), Select(iv, k))
+		var exc []*Term
+		for _, a := range allows {
+			if a.heap != hn {
+				continue
+			}
+			switch {
+			case a.elems != nil:
+				exc = append(exc, And(Eq(r, SlRef(a.elems)), SGe(k, SlOff(a.elems)), SLt(k, BVAdd(SlOff(a.elems), SlLen(a.elems)))))
+			case a.whole:
+				exc = append(exc, Eq(r, a.ref))
+			case a.idx != nil:
+				exc = append(exc, And(Eq(r, a.ref), Eq(k, a.idx)))
+			}
+		}
+		return Implies(exists, Or(append(exc, same)...))
+	}
+	if strings.HasPrefix(hn, "MP.") || strings.HasPrefix(hn, "MV.") {
+		var exc []*Term
+		for _, a := range allows {
+			if a.heap == hn && a.whole {
+				exc = append(exc, Eq(r, a.ref))
+			}
+		}
+		return Implies(exists, Or(append(exc, Eq(fv, iv))...))
+	}
+	var exc []*Term
+	var partial []frameAllow
+	for _, a := range allows {
+		if a.heap != hn {
+			continue
+		}
+		if a.whole {
+			exc = append(exc, Eq(r, a.ref))
+		} else {
+			partial = append(partial, a)
+		}
+	}
+	eq := Eq(fv, iv)
+	if len(partial) > 0 {
+		patched := iv
+		for _, a := range partial {
+			patchedA := pathSet(patched, a.path, pathGet(fv, a.path))
+			patched = Ite(Eq(r, a.ref), patchedA, patched)
+		}
+		eq = Eq(fv, patched)
+	}
+	return Implies(exists, Or(append(exc, eq)...))
+}
+
+func frameHeapSkipped(hn string) bool {
+	return strings.HasPrefix(hn, "B.") || strings.HasPrefix(hn, "GH.")
+}
+
+func (e *Exec) checkFrame(env *CEnv) {
+	allows := e.frameAllows()
 	var names []string
 	for k := range e.st.heaps {
 		names = append(names, k)
 	}
 	sort.Strings(names)
-	ac0 := e.st0.ac
 	for _, hn := range names {
 		final := e.st.heaps[hn]
 		init := e.heap0(hn, e.root.heapSorts[hn])
-		if same(final, init) {
+		if same(final, init) || frameHeapSkipped(hn) {
 			continue
-		}
-		if strings.HasPrefix(hn, "B.") {
-			continue // boxes are write-once
 		}
 		if strings.HasPrefix(hn, "G.") {
 			ok := false
@@ -926,63 +1008,52 @@ func (e *Exec) checkFrame(env *CEnv) {
 			continue
 		}
 		r := e.vc.Fresh("fr", SInt)
-		exists := And(IntLt(IntLit(0), r), IntLt(r, ac0))
-		fv, iv := Select(final, r), Select(init, r)
-		var goal *Term
-		if strings.HasPrefix(hn, "A.") {
-			k := e.vc.Fresh("fk", BV(64))
-			same := Eq(Select(fv, k), Select(iv, k))
-			var exc []*Term
-			for _, a := range allows {
-				if a.heap != hn {
-					continue
-				}
-				switch {
-				case a.elems != nil:
-					exc = append(exc, And(Eq(r, SlRef(a.elems)), SGe(k, SlOff(a.elems)), SLt(k, BVAdd(SlOff(a.elems), SlLen(a.elems)))))
-				case a.whole:
-					exc = append(exc, Eq(r, a.ref))
-				case a.idx != nil:
-					exc = append(exc, And(Eq(r, a.ref), Eq(k, a.idx)))
-				}
-			}
-			goal = Implies(exists, Or(append(exc, same)...))
-		} else if strings.HasPrefix(hn, "MP.") || strings.HasPrefix(hn, "MV.") {
-			var exc []*Term
-			for _, a := range allows {
-				if a.heap == hn && a.whole {
-					exc = append(exc, Eq(r, a.ref))
-				}
-			}
-			goal = Implies(exists, Or(append(exc, Eq(fv, iv))...))
-		} else {
-			// object heap: field-wise for partially allowed objects
-			var exc []*Term
-			var partial []allow
-			for _, a := range allows {
-				if a.heap != hn {
-					continue
-				}
-				if a.whole {
-					exc = append(exc, Eq(r, a.ref))
-				} else {
-					partial = append(partial, a)
-				}
-			}
-			eq := Eq(fv, iv)
-			if len(partial) > 0 {
-				// patch the initial object with the final values of the allowed paths, then compare
-				patched := iv
-				cond := False
-				for _, a := range partial {
-					patchedA := pathSet(patched, a.path, pathGet(fv, a.path))
-					patched = Ite(Eq(r, a.ref), patchedA, patched)
-					cond = Or(cond, Eq(r, a.ref))
-				}
-				eq = Eq(fv, patched)
-			}
-			goal = Implies(exists, Or(append(exc, eq)...))
+		k := e.vc.Fresh("fk", BV(64))
+		e.vc.Oblige("frame", hn, "objects in "+hn+" not named by modifies are unchanged ("+e.con.File+")", e.con.File, e.g, e.frameGoal(hn, final, r, k), e.root.inputs)
+	}
+}
+
+// loop frames: the function's frame is an implicit invariant of every loop (assumed for the havocked
+// heaps at the header, checked at the latch).
+func (e *Exec) assumeLoopFrame(lp *Loop, heaps []string) {
+	if e.con == nil || !e.con.HasFrame() || e.depth > 0 {
+		return
+	}
+	if _, tf := e.con.Raw["trusted_frame"]; tf {
+		return
+	}
+	lp.frameHeaps = nil
+	for _, hn := range heaps {
+		if frameHeapSkipped(hn) || strings.HasPrefix(hn, "G.") {
+			continue
 		}
-		e.vc.Oblige("frame", hn, "objects in "+hn+" not named by modifies are unchanged ("+e.con.File+")", e.con.File, e.g, goal, e.root.inputs)
+		cur, ok := e.st.heaps[hn]
+		if !ok {
+			continue
+		}
+		lp.frameHeaps = append(lp.frameHeaps, hn)
+		r, k := Sym("fr.q", SInt), Sym("fk.q", BV(64))
+		body := e.frameGoal(hn, cur, r, k)
+		vars := [][2]string{{"fr.q", SInt}}
+		var pats []*Term
+		if strings.HasPrefix(hn, "A.") {
+			vars = append(vars, [2]string{"fk.q", BV(64)})
+			pats = []*Term{Select(Select(cur, r), k)}
+		} else {
+			pats = []*Term{Select(cur, r)}
+		}
+		e.vc.Assume(True, Forall(vars, body, pats...))
+	}
+}
+
+func (e *Exec) checkLoopFrame(lp *Loop) {
+	for _, hn := range lp.frameHeaps {
+		final, ok := e.st.heaps[hn]
+		if !ok {
+			continue
+		}
+		r := e.vc.Fresh("fr", SInt)
+		k := e.vc.Fresh("fk", BV(64))
+		e.vc.Oblige("frame", e.loopName(lp)+"."+hn, "loop preserves the function's frame for "+hn, e.con.File, e.g, e.frameGoal(hn, final, r, k), e.root.inputs)
 	}
 }
